@@ -5,7 +5,7 @@ set -u
 if [ "$1" = "-R" ]; then
   git -C /repo show "$2" > /tmp/.wp_patch.$$ ; APPLY="git -C /repo apply -R /tmp/.wp_patch.$$"; shift 2
 else
-  APPLY="git -C /repo apply $1"; shift
+  APPLY="git -C /repo apply $(realpath "$1")"; shift
 fi
 [ "$1" = "--" ] && shift
 if [ -n "$(git -C /repo status --porcelain -- eyecite)" ]; then echo "repo dirty"; exit 3; fi
